@@ -158,6 +158,22 @@ func (u *Unit) lookupIdent(name string, env *Env) Val {
 	if s, ok := env.bound[name]; ok {
 		return Val{T: Term{name, s}}
 	}
+	if env.fr != nil && env.fr.parent == nil && env.fr.fn != nil {
+		// a captured variable of the closure under proof: its current content (captures are by reference)
+		for _, fv := range env.fr.fn.FreeVars {
+			if fv.Name() != name {
+				continue
+			}
+			if _, isPtr := fv.Type().Underlying().(*types.Pointer); !isPtr {
+				break
+			}
+			if pv, ok := env.fr.vals[fv]; ok {
+				if l := u.pointerLoc(env.st, pv, fv.Type()); l.Kind != LOpaque {
+					return u.load(env.st, l)
+				}
+			}
+		}
+	}
 	if v, ok := env.vars[name]; ok {
 		return v
 	}
@@ -205,6 +221,16 @@ func (u *Unit) lookupIdent(name string, env *Env) Val {
 				}
 			}
 			return u.load(env.st, &Loc{Kind: LCell, Cell: c, Elem: c.Typ})
+		}
+		// an escaping local (captured by a closure, or its address taken): it lives in a box
+		for k := len(env.fr.boxed) - 1; k >= 0; k-- {
+			bl := env.fr.boxed[k]
+			if bl.alloc.Comment != name {
+				continue
+			}
+			if l := u.pointerLoc(env.st, Val{T: bl.ref}, bl.alloc.Type()); l.Kind != LOpaque {
+				return u.load(env.st, l)
+			}
 		}
 		if v, ok := env.fr.params[name]; ok {
 			return v
